@@ -125,6 +125,7 @@ package jobcontroller
 //@   ensures [C12] result == !unfinished(task)
 
 //@ func Reconciler.handleKillJob
+//@   locals needDelete: []github.com/furiko-io/furiko/pkg/execution/tasks.Task; deletingNames: k8s.io/apimachinery/pkg/util/sets.String
 //@   params w, ctx, rj, tasks
 //@   tags C12
 //@   requires w != nil && rj != nil
@@ -153,6 +154,7 @@ package jobcontroller
 //@ pure overdue(t jobtasks.Task, pt Int, now Int) bool = unfinished(t) && notRunning(t) && createdNs(t) + pt <= now
 
 //@ func Reconciler.handlePendingTasks
+//@   locals now: time.Time; pendingTimeout: time.Duration; needDelete: []github.com/furiko-io/furiko/pkg/execution/tasks.Task; deletingNames: k8s.io/apimachinery/pkg/util/sets.String; newRj: *github.com/furiko-io/furiko/apis/execution/v1alpha1.Job; newRefs: []github.com/furiko-io/furiko/apis/execution/v1alpha1.TaskRef
 //@   params w, ctx, rj, tasks, cfg
 //@   tags C12
 //@   requires w != nil && rj != nil && cfg != nil && rj.Spec.Template != nil
@@ -188,6 +190,7 @@ package jobcontroller
 //@ pure stuck(t jobtasks.Task, timeout Int, now Int) bool = jobtasks.taskDelSet(t) && jobtasks.taskDelNs(t) + timeout <= now
 
 //@ func Reconciler.handleForceDeleteKillingTasks
+//@   locals timeout: time.Duration; needDelete: []github.com/furiko-io/furiko/pkg/execution/tasks.Task; deletingNames: k8s.io/apimachinery/pkg/util/sets.String
 //@   params w, ctx, rj, tasks, cfg
 //@   tags C12
 //@   requires w != nil && rj != nil && cfg != nil && rj.Spec.Template != nil
@@ -226,6 +229,7 @@ package jobcontroller
 //@ pure gone(rj *execution.Job, k int) bool = jobtasks.taskCached(rj, rj.Status.Tasks[k].Name) == nil
 
 //@ func Reconciler.handleFinishFinalizer
+//@   locals tasks: []github.com/furiko-io/furiko/pkg/execution/tasks.Task
 //@   params w, ctx, rj
 //@   tags C13
 //@   requires w != nil && rj != nil
@@ -259,6 +263,7 @@ package jobcontroller
 // (C20: a task that exists in the API but is not yet in the task cache is a transient failure -- the lookup must fail so
 // that the pass is retried, it must not be mistaken for "exists but is someone else's", which ends the Job for good)
 //@ func Reconciler.getTaskForAdoption
+//@   locals task: github.com/furiko-io/furiko/pkg/execution/tasks.Task
 //@   params w, rj, name
 //@   tags C09, C20
 //@   requires w != nil && rj != nil
@@ -343,6 +348,7 @@ package jobcontroller
 // it, attempts remain), carries that index's next retry number, and is not issued before the latest finish of the index
 // plus the retry delay; none is issued when the Job has a kill timestamp or an admission error.
 //@ func Reconciler.syncCreateTasks
+//@   locals now: time.Time; indexRequests: []github.com/furiko-io/furiko/pkg/execution/util/parallel.IndexCreationRequest
 //@   params w, ctx, rj, tasks
 //@   tags C08
 //@   requires w != nil && rj != nil
@@ -379,6 +385,7 @@ package jobcontroller
 // delete, and recompute the status. Its contract carries the kill sweep (C12) and the creation discipline (C08) to `sync`.
 //@ pure cachedTask(rj *execution.Job, k int) jobtasks.Task = jobtasks.taskCached(rj, rj.Status.Tasks[k].Name)
 //@ func Reconciler.syncJobTasks
+//@   locals tasks: []github.com/furiko-io/furiko/pkg/execution/tasks.Task
 //@   params w, ctx, rj, cfg, trace
 //@   tags C08, C12
 //@   requires w != nil && rj != nil && cfg != nil
